@@ -303,6 +303,19 @@ pub fn run(args: &Args) {
         }
         let layouts: Vec<u32> = if *n_pop <= 60 { vec![0, 1, 2] } else { vec![0, 2] };
         let mut diffs = check_group(&mut st, *n_pop, *n_sample, &profiles, &layouts);
+        // sparse variants: only one or two annotations in the whole ontology, so that most
+        // background and sample terms carry NO annotation of the tested kind (they still count
+        // towards N and n)
+        let with_k: Vec<&Profile> = profiles.iter().filter(|p| p.k > 0).collect();
+        if !with_k.is_empty() {
+            let picks = [with_k[0].clone(), with_k[with_k.len() / 2].clone(), with_k[with_k.len() - 1].clone()];
+            for (i, p) in picks.iter().enumerate() {
+                let subset = if i == 1 { vec![p.clone(), picks[0].clone()] } else { vec![p.clone()] };
+                let mut subset = subset;
+                subset.dedup_by(|a, b| a.big_k == b.big_k && a.k == b.k);
+                diffs.extend(check_group(&mut st, *n_pop, *n_sample, &subset, &[0, 1]).into_iter().map(|d| format!("sparse: {d}")));
+            }
+        }
         if st.samples.len() < 2 && (*n_pop == 7 || *n_pop > 170) {
             st.samples.push(json!({"N": n_pop, "n": n_sample, "profiles": profiles.iter().take(4).map(|p| json!({"K": p.big_k, "k": p.k, "p": p.p, "fold": p.fold})).collect::<Vec<_>>()}));
         }
